@@ -7,6 +7,8 @@
 (* bytes carried over / lost-synch flag; e.f = PKONE in-flight counter; e.dd = the decoder raised (reader task   *)
 (* dead).  A line is accepted iff                                                                                  *)
 (* the observations equal the model's decode of the same chunking AND the model's whole-stream decode.            *)
+(* OPP: TR.cfg.cards is the wing layout the emulated cards of the booted machine reported at start-up; which      *)
+(* reports are valid (InitSw / OppApplySw via OppKeys) is derived from it by the model, not by the driver.        *)
 EXTENDS SerialFraming, TraceIO
 VARIABLES tid, l
 tvars == <<vars, tid, l>>
